@@ -69,8 +69,12 @@ def _val_a(o):
     return o.a
 
 
-RAW_FNS = {'is_big': _is_big, 'lt': _lt, 'same_b': _same_b, 'val_a': _val_a}
-FN_ARGS = {'is_big': ('o',), 'lt': ('p', 'q'), 'same_b': ('o1', 'o2'), 'val_a': ('o',)}
+def _val_b(o):
+    return o.b
+
+
+RAW_FNS = {'is_big': _is_big, 'lt': _lt, 'same_b': _same_b, 'val_a': _val_a, 'val_b': _val_b}
+FN_ARGS = {'is_big': ('o',), 'lt': ('p', 'q'), 'same_b': ('o1', 'o2'), 'val_a': ('o',), 'val_b': ('o',)}
 
 
 class CallCounter:
@@ -118,14 +122,17 @@ class Built:
 
     # -- dataset -------------------------------------------------------------------------------
     def _make_classes(self):
+        # case['value_eq']: the generated dataclasses compare by VALUE (dataclass default eq=True): two distinct objects
+        # with equal fields are == but remain two objects (two solutions) for the library
+        veq = bool(self.case.get('value_eq'))
         for name, base in self.case['classes']:
             if base == '-':
                 # like the library's own test datasets: a base with a KEYWORD-ONLY field, declared before the
                 # regular fields of the class (dataclasses.fields order != __init__ parameter order)
                 cls = make_dataclass(name, [(f, object, field(default=None)) for f in FIELDS],
-                                     bases=(_KwBase, _Methods), eq=False, repr=False)
+                                     bases=(_KwBase, _Methods), eq=veq, repr=False)
             else:
-                cls = dataclass(eq=False, repr=False)(type(name, (self.classes[base],), {}))
+                cls = dataclass(eq=veq, repr=False)(type(name, (self.classes[base],), {}))
             # a subclass may be left UNDECORATED: it inherits the patched constructor of its @symbol ancestor
             self.classes[name] = cls if (base != '-' and name in (self.case.get('undecorated') or ())) else symbol(cls)
 
@@ -252,9 +259,14 @@ class Built:
             if domq is not None:
                 # let(T, domain=an(entity(z, conds))): the variable ranges over the solutions of a sub-query
                 z = 60 + vid
-                self.vars[z] = let(self.classes[cls], [self.decode(v) for v in raw], name=f"v{z}")
-                sub = an(entity(self.vars[z], *[self.cond(c) for c in domq]))
-                self.vars[vid] = let(self.classes[cls], domain=sub, name=f"v{vid}")
+                zcls = (self.case.get('domq_cls') or {}).get(vid, cls)      # the sub-query may range over a BROADER type
+                self.vars[z] = let(self.classes[zcls], [self.decode(v) for v in raw], name=f"v{z}")
+                # no condition at all: the domain is the other VARIABLE itself
+                sub = an(entity(self.vars[z], *[self.cond(c) for c in domq])) if domq else self.vars[z]
+                if self.case.get('domq_form') == 'from':
+                    self.vars[vid] = self.classes[cls](From(sub))
+                else:
+                    self.vars[vid] = let(self.classes[cls], domain=sub, name=f"v{vid}")
                 continue
             if vid in pform:
                 # predicate form: T(From(d), *positional, **keywords); values are constants, variables
@@ -275,9 +287,21 @@ class Built:
                         shared[key] = From([self.decode(v) for v in raw])
                     self.vars[vid] = self.classes[cls](shared[key], *pos, **kw)
                     continue
-                self.vars[vid] = self.classes[cls](From([self.decode(v) for v in raw]), *pos, **kw)
+                self.vars[vid] = self.classes[cls](From(self.mk_domain([self.decode(v) for v in raw])), *pos, **kw)
             else:
-                self.vars[vid] = let(self.classes[cls], [self.decode(v) for v in raw], name=f"v{vid}")
+                self.vars[vid] = let(self.classes[cls], self.mk_domain([self.decode(v) for v in raw]), name=f"v{vid}")
+
+    def mk_domain(self, objs_):
+        """The collection handed to the library as a domain: a list, or - case['dom_kind'] - a tuple, a generator
+        expression or a plain iterator (one-shot, not sized) over the same objects."""
+        kind = self.case.get('dom_kind') or 'list'
+        if kind == 'tuple':
+            return tuple(objs_)
+        if kind == 'gen':
+            return (o for o in list(objs_))
+        if kind == 'iter':
+            return iter(list(objs_))
+        return list(objs_)
 
     def pform_value(self, v):
         from entity_query_language import From
@@ -320,6 +344,9 @@ class Built:
             if t[1] not in self.flats:
                 self.flats[t[1]] = concatenate(self.term(t[2]))
             return self.flats[t[1]]
+        if k in ('fnv', 'fnvc'):
+            # a user predicate (decorated function / Predicate subclass) used as a VALUE: val_b(x) == 0
+            return (self.fn_preds if k == 'fnv' else self.cls_preds)[t[1]](self.term(t[2]))
         if k == 'nestedc':
             # a nested constructor argument of a rule head: C(field=e) - written in rule mode
             return self.classes[t[1]](**{t[2]: self.term(t[3])})
